@@ -305,9 +305,14 @@ class FactoryHost:
         hand = run_hand(spec, tab)
         f = ao_mod.Factory("fac")
         bps = []
+        from mc.charts import ENTRY, EXIT, INIT
+        late = []
         for i in range(n):
             bp = f.create(state=NAMES[i])
             for sig in sorted(cbs[i]):
+                if p.get("late") and sig not in (ENTRY, EXIT, INIT):
+                    late.append((bp, sig, cbs[i][sig]))      # caught on the running chart, after start_at
+                    continue
                 bp.catch(signal=sig, handler=cbs[i][sig])
             bps.append(bp)
         fns = [bp.to_method() for bp in bps]
@@ -320,6 +325,8 @@ class FactoryHost:
         f.start_at(fns[spec["start"]])
         s.settle()
         steps.append((list(LOG), f.state_name))
+        for bp, sig, cb in late:
+            bp.catch(signal=sig, handler=cb)
         for name in spec["events"]:
             del LOG[:]
             f.post_fifo(ev(name))
@@ -394,6 +401,9 @@ def run(tier):
                 for base, _ in gen(f):
                     for sname in ("all", "mixed"):
                         ps.append({"spec": hsmrun.dump(hsmrun.norm(base)), "style": sname})
+                    if base["react"]:
+                        # the reactions to user signals are caught on the running chart (after to_method, nest and start_at)
+                        ps.append({"spec": hsmrun.dump(hsmrun.norm(base)), "style": "all", "late": True})
     chunks = [ps[i::ncpu() * 4] for i in range(ncpu() * 4)]
     fouts = pmap(factory_work, [c for c in chunks if c], ncpu())
     nf = 0
@@ -402,7 +412,7 @@ def run(tier):
             nf += 1
             for key, what in v:
                 if sum(1 for x in res.violations if x.key == key) < 2:
-                    res.add(Violation(key, what, {"factory": True, "spec": p["spec"], "style": p["style"]}))
+                    res.add(Violation(key, what, {"factory": True, "spec": p["spec"], "style": p["style"], "late": p.get("late", False)}))
     nruns = sum(o[0] for o in out)
     res.coverage = {
         "evaluations": nruns + nf, "traces_validated_against_impl": nruns + nf, "transitions": 3 * (nruns + nf),
@@ -422,7 +432,7 @@ def run(tier):
 def replay(w):
     res = Result(PID)
     if w.get("factory"):
-        for _, v in factory_work([{"spec": w["spec"], "style": w["style"]}]):
+        for _, v in factory_work([{"spec": w["spec"], "style": w["style"], "late": w.get("late", False)}]):
             for key, what in v:
                 print(key, what)
                 res.add(Violation(key, what, w))
